@@ -262,7 +262,11 @@ func (d *DefaultClientDispatcher) Pause() {
 	d.mutex.Lock()
 	defer d.mutex.Unlock()
 	if !d.timer.Stop() {
-		<-d.timer.C
+		// The message pump may have consumed the expiry already: a blocking drain would wait forever, holding the lock
+		select {
+		case <-d.timer.C:
+		default:
+		}
 	}
 	d.timer.Reset(defaultTimeoutTick)
 	d.paused = true
